@@ -432,6 +432,13 @@ func (ex *Exec) fieldOfValue(env *Env, x *Value, name string) *Value {
 			}
 		}
 	}
+	if name == "$ref" {
+		// the reference of a pointer, map or channel value
+		switch x.T.Underlying().(type) {
+		case *types.Pointer, *types.Map, *types.Chan:
+			return &Value{T: types.Typ[types.Int], C: []*Term{x.C[0]}}
+		}
+	}
 	specFail("cannot select .%s from %s", name, x.T)
 	return nil
 }
